@@ -12,7 +12,7 @@ PROP = dict(
           "(capped at 2^22) and six reader behaviours. A case is NON-TRIVIAL when the value or byte string lies on a boundary "
           "(>= q, within 4 of 0 or q, a small negative, a 2^(8k)/limb boundary, length != Bytes, negative, multiple of q), the text is "
           "malformed or uses sign/underscore/prefix variants, or the vector stream carries an invalid entry, a cut, a wrong prefix, "
-          "trailing bytes, a non-trivial reader or has length 0; every history case (2-4 conversions that return a slice/string/big.Int/array, "
+          "trailing bytes, a non-trivial reader or has length 0; fault sweeps (a sink failing permanently / once / partially / with a short write at every Write call for lengths 0..40 and at sampled calls for lengths up to 1100, and a reader failing once at every Read call) count each run once; every history case (2-4 conversions that return a slice/string/big.Int/array, "
           "called on different values before any earlier result is compared, decoded, then scribbled over) is non-trivial. distinct = distinct (field, operation, input) hashes; the sweeps "
           "count each enumerated stream / encoding once."),
     assumptions=["reference = math/big only (big-endian integer interpretation, v mod q, a numeral parser written from the SetString doc comment "
@@ -30,7 +30,8 @@ PROP = dict(
                    "trunc:in_prefix", "trunc:element_boundary", "trunc:inside_element", "mut:prefix_larger",
                    "reader:onebyte", "reader:chunks", "reader:dataerr", "setstring:rejected", "json:rejected", "iface:unsupported",
                    "v=-uint16", "json:string", "json:number",
-                   "history:results_outlive_later_calls", "history:same_conversion_twice"],
+                   "history:results_outlive_later_calls", "history:same_conversion_twice",
+                   "sweep:sink_once", "sweep:sink_perm", "sweep:sink_partial", "sweep:sink_short", "sweep:reader_fail_once", "sink:once"],
     jobs=[
         dict(name="roundtrip", pkg="c08", run="^TestC08_RoundTrip$", shards=FIELDS, checks=(4000, 60000)),
         dict(name="lenient", pkg="c08", run="^TestC08_Lenient$", shards=FIELDS, checks=(6000, 100000)),
@@ -39,7 +40,7 @@ PROP = dict(
         dict(name="vector", pkg="c08", run="^TestC08_VectorCodec$", shards=FIELDS, checks=(2500, 40000)),
         # history dimension ("results stay valid"); never run this job with race=True (sync.Pool drops items at random under -race)
         dict(name="history", pkg="c08", run="^TestC08_History$", shards=FIELDS, checks=(2500, 40000)),
-        dict(name="sweep", pkg="c08", run="^TestC08_(VectorSweep|TruncSweep|StrictSweep)$", shards=FIELDS, rapid=False, weight=3),
+        dict(name="sweep", pkg="c08", run="^TestC08_(VectorSweep|TruncSweep|StrictSweep|FaultSweep)$", shards=FIELDS, rapid=False, weight=3),
         # regression + documented nil-receiver behaviour + the seed corpus (hostile constants) of the fuzz targets, no fuzzing
         dict(name="fixed", pkg="c08", run="^(TestC08_(NilReceiver|RefParseSelfCheck|Regress.*)|FuzzC08_.*)$", rapid=False),
         # thorough tier only: time-boxed coverage-guided native fuzzing with the oracle inside the target. The driver's binaries
